@@ -114,9 +114,33 @@ func RemoveInputParam(callable syntax.Callable, param string, asts []*syntax.Ast
 	return removeInputParam(match, callable, param, asts, nil)
 }
 
+// A parameter of a specific callable.
+type paramId struct {
+	Callable decId
+	Param    string
+}
+
 func removeInputParam(match matcher,
 	callable syntax.Callable, param string,
 	asts []*syntax.Ast, edits editSet) editSet {
+	return removeInputParamOnce(match, callable, param, asts, edits,
+		make(map[paramId]struct{}))
+}
+
+// Removes the parameter, unless it is in removed already.
+//
+// Without that check, a pipeline input which is not bound to anything, even
+// before the removal, would be found to be unbound again when its own removal
+// is processed, forever.
+func removeInputParamOnce(match matcher,
+	callable syntax.Callable, param string,
+	asts []*syntax.Ast, edits editSet,
+	removed map[paramId]struct{}) editSet {
+	pid := paramId{Callable: makeDecId(callable), Param: param}
+	if _, ok := removed[pid]; ok {
+		return edits
+	}
+	removed[pid] = struct{}{}
 	modified := make(map[decId]struct{})
 	edits = append(edits, &removeCallableInput{
 		Callable: callable,
@@ -179,8 +203,8 @@ func removeInputParam(match matcher,
 						fmt.Fprintf(os.Stderr,
 							"Input %s of pipeline %s in %s:%d is no longer used\n",
 							input, pipe.Id, pipe.File().FileName, pipe.Line())
-						edits = removeInputParam(match, pipe, input,
-							asts, edits)
+						edits = removeInputParamOnce(match, pipe, input,
+							asts, edits, removed)
 					}
 				}
 			}
